@@ -286,10 +286,9 @@ class _WorkerProcess:
             try:
                 os.close(req_w)
                 os.close(res_r)
-                for p in sim.pools + [pool]:
-                    for w in getattr(p, '_pool', []):
-                        if getattr(w, 'proc', None) is not None:
-                            w.proc._close_fds()
+                # (inherited copies of other workers' pipe ends are left alone: processes are removed
+                # by kill, not by EOF, and closing by number would race with threads of the code
+                # under test that create or close pools at the same moment)
                 sim.pools = []                # this process only drives pools it creates itself
                 sim.in_worker += 1            # call seams stay quiet; nested pools raise in daemonic workers
                 sim.worker_daemonic = pool._daemonic_workers
@@ -305,6 +304,9 @@ class _WorkerProcess:
                         break
                     pristine._write_msg(res_w, _run_task(pool, msg))
             except BaseException:
+                import traceback
+                import sys as _s
+                print('simulated worker process failed:\n' + traceback.format_exc(), file=_s.__stderr__)
                 code = 1
             finally:
                 os._exit(code)
@@ -503,9 +505,9 @@ class Sim:
         self.now = 0.0
         self.steps = 0
         self.seq = 0
-        self.in_worker = 0
+        self._inw = {}                    # thread ident -> depth (the code under test may drive from several threads)
+        self._ins = {}
         self.worker_daemonic = True
-        self.in_step = 0
         self._big_lock = _RealRLock()     # threads started by the code under test may all drive the loop
         self.log = []
         self.stats = collections.Counter()
@@ -516,6 +518,24 @@ class Sim:
         self._pct_low = 0
         self._pct_changes = set(cfg.get('pct_changes', ()))
         self.blocked_probe = None
+
+    # `in_worker` / `in_step` describe the *calling thread*: is it currently executing a simulated
+    # worker's task / a simulator event?
+    @property
+    def in_worker(self):
+        return self._inw.get(threading.get_ident(), 0)
+
+    @in_worker.setter
+    def in_worker(self, v):
+        self._inw[threading.get_ident()] = v
+
+    @property
+    def in_step(self):
+        return self._ins.get(threading.get_ident(), 0)
+
+    @in_step.setter
+    def in_step(self, v):
+        self._ins[threading.get_ident()] = v
 
     # -- configuration -------------------------------------------------------
     def cpu_count(self):
